@@ -19,7 +19,8 @@ RULE = ("histories over {load, convert collection, convert rule, init pipeline, 
         "(+init, +convert), new backend with its own pipeline, failing conversion x {pipeline failure, unresolved placeholder, "
         "unrenderable value, missing detection, NotImplementedError inside negated not-equals rendering}}: all histories of "
         "length <= 2 and seeded random ones up to length 8, each followed by a probe via convert() and via convert_rule(); "
-        "distinct = distinct (history, probe kind); non-trivial = history length >= 2")
+        "distinct = distinct (history, probe kind); non-trivial = history length >= 2"
+        "; probe kinds incl. cased and plain string operators, regex, null; post-processing items that keep parsed templates (json, embed); per-rule detection contents")
 ASSUMPTIONS = [
     "fresh objects = a new pipeline from the same dict, a new backend instance of a new class object built from the same configuration, caches cleared",
     "observation through a finalize_query hook defined in the harness's backend subclass (state seen by the conversion) and a template post-processing item (state seen by the item)",
